@@ -5,6 +5,7 @@ package main
 
 import (
 	"bufio"
+	"bytes"
 	"fmt"
 	"math/rand"
 	"sort"
@@ -154,6 +155,10 @@ func (g *Gen) randBatch(name string, cfg batchCfg) *BatchSpec {
 		if g.chance(0.1) {
 			id = []byte(fmt.Sprintf("z%d", g.r.Intn(5)))
 		}
+		if g.chance(0.06) {
+			// an external id whose length needs a two-byte varint
+			id = append([]byte(fmt.Sprintf("%s-long-%d-", name, i)), bytes.Repeat([]byte("x"), 250+g.r.Intn(200))...)
+		}
 		d := DocSpec{ID: id, Plain: g.chance(0.3)}
 		idf := FieldSpec{Kind: "fld", Name: "_id", Typ: 't', Stored: true, Len: 1, Val: id, Toks: []TokSpec{{Term: id, Freq: 1}}}
 		if idDV {
@@ -202,6 +207,10 @@ func (g *Gen) randBatch(name string, cfg batchCfg) *BatchSpec {
 			ns := 1 + g.r.Intn(2)
 			for s := 0; s < ns; s++ {
 				sf := FieldSpec{Kind: "syn", Name: g.pick([]string{"thesA", "thesB", "thesC"})}
+				if g.chance(0.15) {
+					// a thesaurus may share its name with an ordinary (doc-value) field
+					sf.Name = cfg.fields[g.r.Intn(len(cfg.fields))]
+				}
 				ndef := 1 + g.r.Intn(3)
 				seen := map[string]bool{}
 				for k := 0; k < ndef; k++ {
